@@ -17,7 +17,8 @@ AREAS = {"3": ["main", "lexer", "lists", "texts", "headers", "dataemit", "branch
          "11": ["C04", "C05", "C08", "C12", "C13", "C16", "C17", "C18", "C19", "C20"],
          "12": ["C01", "C02", "C03", "C06", "C07", "C09", "C10", "C11", "C14", "C15"],
          "13": ["C04", "C05", "C08", "C11", "C12", "C13", "C14", "C16", "C17", "C19"],
-         "14": ["C01", "C02", "C03", "C06", "C07", "C09", "C10", "C15", "C18", "C20"]}[ROUND]
+         "14": ["C01", "C02", "C03", "C06", "C07", "C09", "C10", "C15", "C18", "C20"],
+         "15": ["C04", "C05", "C08", "C11", "C12", "C13", "C14", "C16", "C17", "C19"]}[ROUND]
 EXTRA = {"main": ["C17", "C18"], "lexer": ["C19"], "lists": ["C14", "C06"], "texts": ["C06"], "headers": ["C08"], "dataemit": [], "branchrender": ["C01"], "constauto": ["C11"]}
 
 def main():
